@@ -1,7 +1,7 @@
 """C05 - Packet encryption round-trips and is authenticated before decryption.
 
-Decides the structural necessary conditions C05.R1-R8 of DESIGN.md section 4 (not the behaviour
-of AES/HMAC themselves).
+Decides the structural necessary conditions C05.R1-R8 of DESIGN.md section 4 and C05.R9 (below) - not the
+behaviour of AES/HMAC themselves.
 
 The rules locate their subjects by role (the value compared with ``self.signature``, the arguments that feed
 the fields of the ``EncryptedPacket`` that is built, the stream those arguments are read from ...) on the
@@ -52,6 +52,18 @@ R7  (1)(3) writer term <packed length> + ciphertext + signature: pack call decod
     signature).  A conjunct that is not such a predicate makes the obligation undecided.
 R8  (1)(3) keyword binding of the decrypt_packet call (verify <- self.verify_hmac, one key set via ** _asdict() or
     explicit fields), field / parameter name tables (6), the stored flag traced to the constructor parameter and its default.
+R9  "the packet bytes are the framed bytes" (both framing readers): (3) backward value flow from the ciphertext / signature
+    arguments of every EncryptedPacket a reader builds to the `output` field of the container, through flow-sensitive
+    reaching definitions (loop-carried definitions followed once, no unrolling).  On the way the bytes may only be *selected
+    by position* (slices, element access, <stream>.read / getvalue / getbuffer / tobytes) or *copied / viewed* (bytes,
+    bytearray, memoryview, io.BytesIO, `x or b""`, a conditional between such values, `with memoryview(..) as v`).  A step
+    through a bytes method whose result depends on the byte *values* ((5): the finite table _REWRITES - strip family,
+    removeprefix / removesuffix, replace, translate, case mappings, expandtabs, split / partition family) is a violation:
+    ciphertext and signature are opaque binary strings in which every byte value can occur at every position, so such a
+    step is not the identity on all framed streams and the reader no longer splits the stream into exactly the bytes that
+    were framed.  ((6) the only constant arguments recognised as making such a call the identity: an empty strip set /
+    prefix / suffix, translate(None).)  Any other step (an unresolved call, decode / encode, join, concatenation with a
+    non-empty constant, a parameter) is undecided.  Slice bounds and read lengths are NOT looked at here (R4 / R7 do).
 """
 
 from __future__ import annotations
@@ -243,7 +255,9 @@ def run(ctx):
         "EncryptedPacket fields, the stream / buffer / offset they are taken from, the decoded length prefix; the reader loop is "
         "walked once with its loop-carried values symbolic, and its continuation condition, read as an interval predicate of the "
         "number of bytes left, must hold whenever a complete frame - at least 4 + 16 + 16 = 36 bytes - is left and fail when "
-        "nothing is left), keyword binding of "
+        "nothing is left), provenance of the packet bytes (backward value flow from the EncryptedPacket fields of both framing "
+        "readers to the `output` field: only position-based selection and copies / views on the way, no step whose result "
+        "depends on the byte values such as strip / replace / split), keyword binding of "
         "decrypt_packet from BeaconKeys. Decides these structural necessary conditions on every path without executing or "
         "interpreting the analysed code on concrete inputs; does not decide AES/HMAC behaviour or plaintext equality."
     )
@@ -257,6 +271,10 @@ def run(ctx):
         "reads, for-loops, conditional advances) or whose continuation condition is not a comparison of the remaining length "
         "with a constant: reported as undecided",
         "behaviour of the framing readers on malformed streams (truncated frames, trailing garbage shorter than a frame)",
+        "R9: packet bytes that reach the EncryptedPacket fields through anything but slices / element access / stream reads / "
+        "bytes, bytearray, memoryview, io.BytesIO copies / `or` / conditionals / the value-dependent bytes methods of the table "
+        "(helpers that are not inlined, decode/encode, join, concatenation with constants, for-targets, augmented assignment): "
+        "reported as undecided; what is done to `output` before it is stored in the container (C2Http.recover) is not C05's",
     ]
     rep.trusted_base = [
         "CPython ast", "networkx dominators", "AES.block_size == 16 (pycryptodome constant)",
@@ -272,6 +290,13 @@ def run(ctx):
         "bytes) and the signature is 16 bytes (R4), so at a frame boundary of a well-formed stream either 0 or >= 36 bytes are left",
         "len(bytes(b)) == len(memoryview(b)) == len(b), and slices of a copy / view hold the same bytes",
         "interval reading of `r op K` for an integer r >= 0 (r > K holds exactly on [K + 1, +inf), r >= K on [K, +inf), ...)",
+        "R9 lemma: ciphertext (AES-CBC output) and signature (truncated HMAC-SHA256) are opaque binary strings - every byte value "
+        "can occur at every position, in particular first and last - so a bytes method whose result depends on byte values "
+        "(strip / lstrip / rstrip / removeprefix / removesuffix with a non-empty argument, replace, translate with a table, "
+        "lower / upper / swapcase / capitalize / title, expandtabs, split / rsplit / splitlines / partition / rpartition) is not "
+        "the identity on all framed streams",
+        "R9: slices, element access, <stream>.read/getvalue/getbuffer/tobytes select bytes by position only; bytes(), "
+        "bytearray(), memoryview(), io.BytesIO() hold the same bytes as their argument; memoryview / BytesIO __enter__ return self",
     ]
     rep.assumptions = ["hmac.new / AES.new behave as documented", "no monkey-patching of c2 module functions at run time",
                        "pad() is called with its default block size (the call in encrypt_data is checked by R5)"]
@@ -286,6 +311,7 @@ def run(ctx):
     r6(ctx)
     r7(ctx)
     r8(ctx, dp)
+    r9(ctx)
     rep.count("signature_length_sites", rep.counts.get("signature_length_sites", 0), floor=6)
 
 
@@ -2322,3 +2348,168 @@ def r8(ctx, dp):
         d = param_defaults(init.node).get(p) if is_param else None
         ctx.ob("R8", "AGREE", init, text, is_param and d is not None and _cval(d) is True,
                f"stored from parameter={is_param} ({src(val)}), default={src(d)} (True)", s)
+
+
+# ---------------------------------------------------------------------------- R9
+# Bytes methods whose result depends on the *values* of the bytes (finite table, device 5).  Lemma (trusted base): the
+# ciphertext and the signature are opaque binary strings - every byte value can occur at every position - so none of
+# these is the identity on all framed streams.  Methods that only depend on the length (ljust, rjust, center, zfill) are
+# NOT in the table: on a well-formed stream they may well be the identity; they are "not understood" (undecided).
+_REWRITES = frozenset((
+    "strip", "lstrip", "rstrip", "removeprefix", "removesuffix", "replace", "translate", "lower", "upper", "swapcase",
+    "capitalize", "title", "expandtabs", "split", "rsplit", "splitlines", "partition", "rpartition",
+))
+# Position-based selection from a stream / view object: the bytes returned are bytes of the receiver, chosen by position.
+_SELECTORS = frozenset(("read", "read1", "readall", "peek", "getvalue", "getbuffer", "tobytes", "toreadonly", "__enter__"))
+_COPIES = ("bytes", "bytearray", "memoryview")
+
+
+def _rewrite_is_identity(call):
+    """Constant arguments that make a value-dependent bytes method the identity: an empty strip set / prefix / suffix
+    (nothing can match), translate(None) without a delete set."""
+    attr = call.func.attr
+    if attr in ("strip", "lstrip", "rstrip", "removeprefix", "removesuffix"):
+        return len(call.args) == 1 and not call.keywords and isinstance(call.args[0], ast.Constant) and call.args[0].value == b""
+    if attr == "translate":
+        return len(call.args) == 1 and not call.keywords and isinstance(call.args[0], ast.Constant) and call.args[0].value is None
+    return False
+
+
+class _Provenance:
+    """Backward value flow (device 3) from an expression of function f to where its bytes come from.  Names are followed
+    through their flow-sensitive reaching definitions, every (name, definition) pair once - a loop-carried definition
+    is therefore looked at once, nothing is unrolled.  Collected: `sources` (dotted texts of the container field
+    reached), `rewrites` (calls of value-dependent bytes methods the bytes pass through), `unknown` (steps that are
+    not understood)."""
+
+    def __init__(self, ctx, f, source):
+        from csverif.q import reaching_defs
+
+        self.ctx, self.f, self.source = ctx, f, source
+        self._rd = reaching_defs
+        self.sources, self.rewrites, self.unknown = [], [], []
+        self._seen = set()
+
+    def _unk(self, e, why):
+        t = f"{src(e)} ({why})"
+        if t not in self.unknown:
+            self.unknown.append(t)
+
+    def _with_value(self, st, name):
+        """`with memoryview(x) as name` / `with io.BytesIO(x) as name`: __enter__ returns the object itself."""
+        for it in st.items:
+            if isinstance(it.optional_vars, ast.Name) and it.optional_vars.id == name and isinstance(it.context_expr, ast.Call):
+                c = it.context_expr
+                if (dotted(c.func) in _COPIES or (_ext(self.ctx, self.f, c) or "").split(".")[-1] == "BytesIO") and len(c.args) == 1 and not c.keywords:
+                    return c
+        return None
+
+    def walk(self, e, at):
+        from csverif.astutil import strip_cast
+
+        e = strip_cast(e)
+        if isinstance(e, ast.Constant):
+            if e.value is None or e.value == b"":
+                return
+            self._unk(e, "a constant mixed into the packet bytes")
+            return
+        if isinstance(e, ast.Name):
+            if e.id in params(self.f.node):
+                self._unk(e, "a parameter")
+                return
+            rd = self._rd(self.ctx, self.f, e.id, at)
+            if not rd:
+                self._unk(e, "no reaching definition")
+                return
+            for st, v in rd:
+                key = (e.id, id(st))
+                if key in self._seen:
+                    continue
+                self._seen.add(key)
+                if v is None and isinstance(st, (ast.With, ast.AsyncWith)):
+                    v = self._with_value(st, e.id)
+                if v is None:
+                    self._unk(e, f"bound by `{head(st) if isinstance(st, ast.stmt) else src(st)}`")
+                    continue
+                self.walk(v, st)
+            return
+        if isinstance(e, ast.Attribute):
+            if dotted(e) == self.source:
+                if self.source not in self.sources:
+                    self.sources.append(self.source)
+                return
+            self._unk(e, "not the output field")
+            return
+        if isinstance(e, ast.Subscript):
+            self.walk(e.value, at)  # a slice / an element: selected by position
+            return
+        if isinstance(e, ast.BoolOp):
+            for v in e.values:
+                self.walk(v, at)
+            return
+        if isinstance(e, ast.IfExp):
+            self.walk(e.body, at)
+            self.walk(e.orelse, at)
+            return
+        if isinstance(e, ast.NamedExpr):
+            self.walk(e.value, at)
+            return
+        if isinstance(e, ast.BinOp) and isinstance(e.op, ast.Add):
+            self.walk(e.left, at)
+            self.walk(e.right, at)
+            return
+        if isinstance(e, ast.Call):
+            one = len(e.args) == 1 and not e.keywords
+            if one and dotted(e.func) in _COPIES:
+                self.walk(e.args[0], at)
+                return
+            if one and (_ext(self.ctx, self.f, e) or "").split(".")[-1] == "BytesIO":
+                self.walk(e.args[0], at)
+                return
+            if isinstance(e.func, ast.Attribute):
+                a = e.func.attr
+                if a in _SELECTORS:
+                    self.walk(e.func.value, at)
+                    return
+                if a in _REWRITES:
+                    if not _rewrite_is_identity(e):
+                        self.rewrites.append(e)
+                    self.walk(e.func.value, at)
+                    return
+            self._unk(e, "a call that is not understood")
+            return
+        self._unk(e, "an expression that is not understood")
+
+
+def r9(ctx):
+    """Both framing readers: the bytes of the packet fields are bytes of the `output` field, selected by position only."""
+    fields = _fields(ctx, "c2.EncryptedPacket")
+    for fq in ("c2.ServerC2Data.iter_encrypted_packets", "c2.ClientC2Data.iter_encrypted_packets"):
+        f = ctx.repo.func(fq)
+        text = "packet bytes are the bytes of the framed stream (no value-dependent rewriting)"
+        ps = params(f.node)
+        ctors = calls_to(ctx, f, target_fq="c2.EncryptedPacket")
+        if not ps or not ctors:
+            ctx.undecided("R9", "TAINT", f, text, "no EncryptedPacket construction found in the reader", f.node)
+            continue
+        source = ps[0] + ".output"
+        for c in ctors:
+            b = _bind_fields(c, fields)
+            if not b or b.get("ciphertext") is None or b.get("signature") is None:
+                ctx.undecided("R9", "TAINT", f, text, "constructor arguments could not be bound to the fields", c)
+                continue
+            pv = _Provenance(ctx, f, source)
+            for fld in ("ciphertext", "signature"):
+                pv.walk(b[fld], c)
+            if pv.rewrites and pv.sources:
+                ctx.ob("R9", "TAINT", f, text, False,
+                       f"the bytes of `{source}` reach the packet fields through " + ", ".join(f"`{src(r)}`" for r in pv.rewrites)
+                       + ": the result depends on the byte values (ciphertext and signature are binary - any byte value can be the first or "
+                       "last byte or occur inside), so for some framed streams the fields are not the bytes that were framed", pv.rewrites[0])
+            elif pv.unknown:
+                ctx.undecided("R9", "TAINT", f, text, "origin of the packet bytes not followed: " + "; ".join(pv.unknown[:4]), c)
+            elif not pv.sources:
+                ctx.undecided("R9", "TAINT", f, text, f"the packet fields were not traced back to `{source}`", c)
+            else:
+                ctx.ob("R9", "TAINT", f, text, True,
+                       f"ciphertext and signature are traced back to `{source}` through slices, stream reads and copies / views only", c)
